@@ -28,6 +28,8 @@ const (
 	mwPanic
 )
 
+var mwLastAge int
+
 func mwRequest(s *server, method string, outcome int, maxAge int, resp *cache.HTTPResponse) (label cache.Status, downstream int, err error, panicked bool) {
 	req := &http.Request{Method: method, Host: "h", RequestURI: "/a"}
 	c := elton.NewContext(&c15Writer{h: http.Header{}}, req)
@@ -52,6 +54,7 @@ func mwRequest(s *server, method string, outcome int, maxAge int, resp *cache.HT
 	label = getCacheStatus(c)
 	if label == cache.StatusHit {
 		verifAssert("MW.hit-sets-response-and-age", getHTTPResp(c) != nil && getHTTPRespAge(c) >= 0)
+		mwLastAge = getHTTPRespAge(c)
 	}
 	return
 }
@@ -91,6 +94,8 @@ func Harness_MW_cache() {
 		verifReach("MW.second.hit")
 		verifAssert("C03.hit-only-after-a-cacheable-fetch", outcome == mwCacheable)
 		verifAssert("C03.hit-never-contacts-downstream", n2 == 0)
+		// the Age the client sees never exceeds the lifetime the entry was stored with
+		verifAssert("C04.mw.age-le-T", mwLastAge <= maxAge)
 	case cache.StatusHitForPass:
 		verifReach("MW.second.pass")
 		verifAssert("C07.uncacheable-or-failed-fetch-marks-hit-for-pass", outcome != mwCacheable)
